@@ -1070,7 +1070,13 @@ pub fn items(prop: &str, tier: Tier) -> Vec<Item> {
                             }
                             let wrapped_full = src.wrapped() && (th || matches!(t, Term::CollectVec | Term::Find | Term::CollectX | Term::Reduce));
                             for mc in mask_variants(&c, false) {
-                                out.push(item(mc, if wrapped_full { Plan::full() } else { Plan::pb(2) }, ck));
+                                out.push(item(mc.clone(), if wrapped_full { Plan::full() } else { Plan::pb(2) }, ck));
+                                if t.uses_pred() {
+                                    // several matches: more than one worker holds a candidate
+                                    let mut m2 = mc.clone();
+                                    m2.pmask = 0b1110;
+                                    out.push(item(m2, if wrapped_full { Plan::full() } else { Plan::pb(2) }, ck));
+                                }
                             }
                             let mut c3 = par(case(src, 6, ch, t), 3, cs);
                             c3.known = known;
